@@ -6,7 +6,7 @@ Afterwards: SEED_DIR=... SEED_SUFFIX=N python3 tools/confirm_seeds.py ; git -C /
 import json, os, re, subprocess
 
 V = os.path.dirname(os.path.dirname(os.path.abspath(__file__)))
-SEED_DIR = os.environ.get("SEED_DIR", "/tmp/seed6")
+SEED_DIR = os.environ.get("SEED_DIR", "/tmp/seed5")
 
 TMPL = '''You are helping test a verification tool by producing realistic *seeded defects* for a Python library, pyrtcm (a pure-Python RTCM3 GNSS protocol parser). You work ONLY inside your own scratch git worktree of the library at __WT__ (source under __WT__/src/pyrtcm, tests under __WT__/tests). Do not read or touch /repo, /verif or any other directory; do not commit anything.
 
@@ -17,12 +17,13 @@ __TEXT__
 Earlier rounds already produced the changes listed below for this property. Yours must be DIFFERENT in kind - not variations of them:
 __PREV__
 
-This round you choose the kind yourself: whatever you judge most likely to slip past a strong reviewer who already knows every change listed above. Good hunting grounds:
-  * a violation that needs TWO conditions at once (a particular option value AND a particular message type / stream shape / history);
-  * code that does not look related to the property at all: the constants and exception classes (rtcmtypes_core.py, exceptions.py), option handling in the constructors, `__str__`, `__repr__`, properties, the module `__init__`;
-  * the LAST or least prominent clause of the property statement (read it again - which clause would a check most plausibly forget?);
-  * a change that is correct for every input of the kind the tests contain and for every "typical" generated input, and wrong only on a thin slice of the input space (one value of one field, one length, one alignment);
-  * a pair of changes in two different functions (or two files) that cancel out on all test inputs.
+This round, prefer these kinds of change (they are the ones that slip past reviewers):
+  * a "helpful" robustness or convenience addition that changes behaviour for some legal input: an extra validation that rejects a legal value, a normalisation (strip, lower, clamp, default substitution), a fallback that hides a failure, a retry, a silent conversion between types (bytes/bytearray/str/int/bool);
+  * a change in ARITHMETIC on bit offsets, lengths or counts that is invisible for the sizes the test data contains (a mask one bit short, a width taken from the wrong field, integer vs float division, a shift by a computed amount that differs only for large values);
+  * a change in the ORDER in which things are read, consumed or reported (bytes taken from the stream before a check instead of after, an attribute set before the one it depends on, a handler called before the state is updated);
+  * a change that makes the result depend on something it must not depend on: the type (not value) of an argument, the identity of an object, dict/set iteration order, the locale or default encoding, an environment variable, time;
+  * an interaction between TWO features (an option with a message type, an error mode with a protocol, an encoding flag with a buffer size) where each feature alone still works;
+  * a change confined to `__str__`/`__repr__`/logging/error-message construction that nevertheless alters behaviour (an exception raised while building a message, evaluation of a property with side effects).
 Avoid caches and memoisation, wholesale rewrites and new loops (already covered).
 
 Task: produce TWO independent, different changes to the library source (files under __WT__/src/pyrtcm only; call them mutA and mutB) such that each one, applied alone:
